@@ -98,6 +98,10 @@ fn gen_history(rng: &mut Rng, thorough: bool) -> (CfgSpec, Vec<Step>) {
                     r.push(if rng.chance(1, 2) { *rng.pick(&quoteheavy) } else { *rng.pick(&punct) });
                 }
             }
+            // an escaped colon is unambiguously trailing punctuation (it comes out as a literal ':')
+            if rng.chance(1, 6) {
+                r.insert_str(0, ":`");
+            }
             (l, r)
         })
         .collect();
@@ -179,7 +183,7 @@ fn run_history(o: &PhonOracle, spec: CfgSpec, steps: &[Step], root: &std::path::
                     let offered = list.contains(&l.full);
                     let mut c = case(si);
                     c["at"] = json!({"text": text, "learned_candidate": l.full, "preselected": list[sel], "offered": offered, "list": list, "learned_is_raw_text": l.full == l.text,
-                                     "wrapping_has_quotes": st.lead.contains(['\'', '"']) || st.trail.contains(['\'', '"']), "smart_quotes": sq, "in_new_context": st.restart});
+                                     "wrapping_has_quotes": st.lead.contains(['\'', '"']) || st.trail.contains(['\'', '"']), "smart_quotes": sq, "in_new_context": st.restart, "wrapping_converted": [pre, post]});
                     out.violation("choice-remembered-for-same-text", format!("c09:own:offered={offered}:raw={}:sq-quotes={}", l.full == l.text, sq && (st.lead.contains(['\'', '"']) || st.trail.contains(['\'', '"']))), c,
                                   format!("pre-selected candidate {:?} (committed earlier for {text:?})", l.full), format!("{:?} (index {sel}) of {list:?}", list[sel]));
                 }
@@ -195,8 +199,11 @@ fn run_history(o: &PhonOracle, spec: CfgSpec, steps: &[Step], root: &std::path::
             // suffix clause: exactly one learned base split, learned under the same wrapping
             let w = &st.word;
             let mut wants: Vec<(String, &Learned)> = vec![];
+            let mut learned_splits = 0;
             for k in 1..w.len() {
                 if let (Some(sv), Some(l)) = (o.suffix.get(&w[k..]), model.get(&w[..k])) {
+                    // every learned base counts as a split, also one whose chosen candidate cannot be joined (raw text, rare letters)
+                    learned_splits += 1;
                     if let Some(m) = &l.middle {
                         if let Some(j) = join(m, sv) {
                             wants.push((j, l));
@@ -204,13 +211,13 @@ fn run_history(o: &PhonOracle, spec: CfgSpec, steps: &[Step], root: &std::path::
                     }
                 }
             }
-            if wants.len() == 1 && wants[0].1.lead == st.lead && wants[0].1.trail == st.trail {
+            if learned_splits == 1 && wants.len() == 1 && wants[0].1.lead == st.lead && wants[0].1.trail == st.trail {
                 let want = format!("{pre}{}{post}", wants[0].0);
                 if list.contains(&want) {
                     t.suffix_judged += 1;
                     if list[sel] != want {
                         let mut c = case(si);
-                        c["at"] = json!({"text": text, "expected_joined_candidate": want, "preselected": list[sel], "list": list});
+                        c["at"] = json!({"text": text, "expected_joined_candidate": want, "preselected": list[sel], "list": list, "offered": true, "wrapping_converted": [pre, post]});
                         out.violation("choice-carried-to-suffix-form", "c09:suffix-form-not-preselected".into(), c,
                                       format!("pre-selected candidate {want:?} (learned base choice {:?} joined to the suffix)", wants[0].1.full), format!("{:?} (index {sel}) of {list:?}", list[sel]));
                     }
@@ -285,10 +292,15 @@ fn run_history(o: &PhonOracle, spec: CfgSpec, steps: &[Step], root: &std::path::
             t.own_judged_after_restart += 1;
             if list[sel] != l.full {
                 let offered = list.contains(&l.full);
+                let (mut fpre, mut fpost) = (o.avro(&l.lead), o.avro(&l.trail));
+                if sq {
+                    fpre = curl_open(&fpre);
+                    fpost = curl_close(&fpost);
+                }
                 let mut c = case(steps.len() - 1);
                 let has_q = l.lead.contains(['\'', '"']) || l.trail.contains(['\'', '"']);
                 c["at"] = json!({"text": l.text, "learned_candidate": l.full, "preselected": list[sel], "offered": offered, "list": list, "learned_is_raw_text": l.full == l.text,
-                                 "wrapping_has_quotes": has_q, "smart_quotes": sq, "in_new_context": true, "final_check": true});
+                                 "wrapping_has_quotes": has_q, "smart_quotes": sq, "in_new_context": true, "final_check": true, "wrapping_converted": [fpre, fpost]});
                 out.violation("choice-remembered-for-same-text", format!("c09:own:offered={offered}:raw={}:sq-quotes={}", l.full == l.text, sq && has_q), c,
                               format!("pre-selected candidate {:?} (committed earlier for {:?}) in a new context", l.full, l.text), format!("{:?} (index {sel}) of {list:?}", list[sel]));
             }
@@ -301,7 +313,7 @@ impl Prop for C09 {
         "C09"
     }
     fn rule(&self) -> String {
-        "histories of 5-24 (quick) / 5-40 (thorough) words from a small per-history vocabulary (2-4 of 14 bases, 10 suffixes, 3 wrappings over the C03 punctuation set with quote-heavy weighting; ':' and back-tick excluded), \
+        "histories of 5-24 (quick) / 5-40 (thorough) words from a small per-history vocabulary (2-4 of 14 bases, 10 suffixes, 3 wrappings over the C03 punctuation set with quote-heavy weighting; a bare ':' excluded, the escaped colon ':`' included as trailing punctuation), \
          suggestions on, English and smart quotes free; every word is typed with front-end protocol selection bytes, the pre-selection is judged against a 20-line model (word -> committed candidate, latest wins; updated only by commits of a non-pre-selected index), \
          then either the pre-selected or another index is committed; the store file is parsed after every commit; a context restart before 1 word in 7 and, at the end of every history, every learned text is typed once more in a new context. \
          Re-typings under another wrapping are recorded as observations only. distinct_nontrivial = distinct (text, options, position in history) typings."
@@ -332,7 +344,14 @@ impl Prop for C09 {
             "raw-text-choice-with-converted-wrapping" => {
                 let text = at.get("text").and_then(|t| t.as_str()).unwrap_or("");
                 let learned = at.get("learned_candidate").and_then(|t| t.as_str()).unwrap_or("");
-                v.clause == "choice-remembered-for-same-text" && b("learned_is_raw_text") && learned == text && b("offered") && text.chars().any(|c| PUNCT.contains(c))
+                v.clause == "choice-remembered-for-same-text" && b("learned_is_raw_text") && learned == text && b("offered") && text.chars().any(|c| PUNCT.contains(c) || c == ':' || c == '`')
+            }
+            // the wrapping transliterates to something that is not punctuation (",," is Avro's explicit hasanta), so the stored
+            // candidate keeps it and the lookup appends it a second time
+            "wrapping-converts-to-non-punctuation" => {
+                let conv: Vec<&str> = at.get("wrapping_converted").and_then(|w| w.as_array()).map(|a| a.iter().filter_map(|x| x.as_str()).collect()).unwrap_or_default();
+                let odd = |s: &str| s.chars().any(|c| !(c.is_ascii_punctuation() || c == '।' || "‘’“”".contains(c)));
+                (v.clause == "choice-remembered-for-same-text" || v.clause == "choice-carried-to-suffix-form") && !b("learned_is_raw_text") && b("offered") && conv.iter().any(|s| odd(s))
             }
             _ => false,
         }
